@@ -233,36 +233,24 @@ func checkC09(P *Program, r *Result, tier string) {
 			r.fatal("DefaultReader.reset: no store of a caller-provided buffer found (vacuity guard)")
 		}
 	}
-	for _, typ := range []string{"DefaultReader", "DefaultWriter"} {
-		reset := P.Method(relBufiox, typ, "reset")
-		if reset == nil {
-			continue
+	ctorOwnerRule(P, r, "OWNER-GUARD")
+	// regions handed out by Malloc stay the memory that is flushed: a buffer that is outgrown is parked, not
+	// copied, and Flush stitches the parked buffers back at their own offsets (the C05 rules, re-run here)
+	{
+		tmp := newResult(r.Prop)
+		checkC05(P, tmp, tier)
+		r.Fatal = append(r.Fatal, tmp.Fatal...)
+		n := 0
+		for _, o := range tmp.Obls {
+			if strings.HasSuffix(o.Rule, "/GROW") || strings.HasSuffix(o.Rule, "/STITCH") {
+				o.Rule = r.Prop + "/REGIONS"
+				r.Obls = append(r.Obls, o)
+				r.Funcs[o.Func] = true
+				n++
+			}
 		}
-		for fn := range P.AllFuncs {
-			if !inRepo(fn) || fn.Blocks == nil || fn.Synthetic != "" {
-				continue
-			}
-			for _, c := range callsIn(fn) {
-				if c.Common().StaticCallee() != reset {
-					continue
-				}
-				args := c.Common().Args
-				if isNilConst(args[2]) {
-					continue
-				}
-				cc := c.(*ssa.Call)
-				if typ == "DefaultReader" {
-					// the source must be the inert fake reader
-					ok := false
-					if mi, isMI := args[1].(*ssa.MakeInterface); isMI && P.helperTypeOf(relBufiox, "BytesReader", "fakedIOReader") != "" && strings.HasSuffix(mi.X.Type().String(), "."+P.helperTypeOf(relBufiox, "BytesReader", "fakedIOReader")) {
-						ok = true
-					}
-					r.add("OWNER-GUARD", shortName(fn), "call", "a reader over a caller's buffer is fed by the inert source only", P.pos(instrPos(cc)), ok, "")
-				} else {
-					c3, isC := args[3].(*ssa.Const)
-					r.add("OWNER-GUARD", shortName(fn), "call", "a writer over a caller's buffer has the cache disabled", P.pos(instrPos(cc)), isC && c3.Value != nil && c3.Value.String() == "true", "")
-				}
-			}
+		if n < 3 {
+			r.fatal("expected the parking and stitching obligations of the writer, found %d", n)
 		}
 	}
 	if fn := P.Method(relBufiox, P.helperTypeOf(relBufiox, "BytesReader", "fakedIOReader"), "Read"); r.require("bufiox: Read of the inert source embedded in BytesReader", fn != nil) {
@@ -307,6 +295,9 @@ func ownerGuardRules(P *Program, r *Result, rule string) {
 		r.add(rule, shortName(fn), "forget", "field "+field+" no longer refers to the buffer once it is back in the shared pool", P.pos(instrPos(s.Call)), !leak, detail)
 	}
 	ownerFlagRule(P, r, rule)
+	if rule != "OWNER-GUARD" {
+		ctorOwnerRule(P, r, rule)
+	}
 	for _, s := range allFreeSites(P) {
 		fn := s.Fn
 		field, _ := freedField(fn, s.Call.Common().Args[0])
@@ -335,6 +326,62 @@ func ownerGuardRules(P *Program, r *Result, rule string) {
 func init() { register("C09", "other", checkC09) }
 
 // ownerFlagRule: the reader's ownership flag may only be cleared for a buffer the reader has just allocated itself.
+// ctorOwnerRule: whoever installs a caller's buffer marks the instance as not owning it
+// (inert source for readers, cache disabled — as a constant — for writers).
+func ctorOwnerRule(P *Program, r *Result, rule string) {
+	for _, typ := range []string{"DefaultReader", "DefaultWriter"} {
+		reset := P.Method(relBufiox, typ, "reset")
+		if reset == nil {
+			continue
+		}
+		for fn := range P.AllFuncs {
+			if !inRepo(fn) || fn.Blocks == nil || fn.Synthetic != "" {
+				continue
+			}
+			for _, c := range callsIn(fn) {
+				if c.Common().StaticCallee() != reset {
+					continue
+				}
+				args := c.Common().Args
+				if isNilConst(args[2]) {
+					continue
+				}
+				cc := c.(*ssa.Call)
+				if typ == "DefaultReader" {
+					// the source must be the inert fake reader
+					ok := false
+					if mi, isMI := args[1].(*ssa.MakeInterface); isMI && P.helperTypeOf(relBufiox, "BytesReader", "fakedIOReader") != "" && strings.HasSuffix(mi.X.Type().String(), "."+P.helperTypeOf(relBufiox, "BytesReader", "fakedIOReader")) {
+						ok = true
+					}
+					r.add(rule, shortName(fn), "call", "a reader over a caller's buffer is fed by the inert source only", P.pos(instrPos(cc)), ok, "")
+				} else {
+					// the value reset stores into the ownership flag, as seen from this call
+					okFlag, detail := false, "the ownership flag is not set to a constant by this call"
+					for _, v := range fieldInits(reset, "disableCache", 0) {
+						var fv ssa.Value = v
+						if p, isP := v.(*ssa.Parameter); isP {
+							fv = nil
+							for i, rp := range reset.Params {
+								if rp == p && i < len(args) {
+									fv = args[i]
+								}
+							}
+						}
+						if c3, isC := fv.(*ssa.Const); isC && c3.Value != nil && c3.Value.String() == "true" {
+							okFlag, detail = true, ""
+						} else {
+							okFlag = false
+							detail = "the flag is computed (" + fmt.Sprint(v) + "): a caller's buffer of capacity 0, or any buffer the sink hands to the caller, would be recycled"
+							break
+						}
+					}
+					r.add(rule, shortName(fn), "call", "a writer over a caller's buffer has the cache disabled", P.pos(instrPos(cc)), okFlag, detail)
+				}
+			}
+		}
+	}
+}
+
 func ownerFlagRule(P *Program, r *Result, rule string) {
 	inBufiox := func(f *ssa.Function) bool { return fnPkgPath(f) != modPath+"/"+relBufiox }
 	A := newAnalysis(P)
